@@ -1057,6 +1057,68 @@ theorem se3_log_exp_small (eps : ℝ) (x : se3 ℝ) (h0 : 0 ≤ eps) (he1 : eps 
   have hn4T : 0 ≤ n ^ 4 * T := mul_nonneg (by positivity) ht0
   nlinarith
 
+/-- `Log (Exp ξ)` on sim3 for rotations by at most `eps ≤ 1/2`, stated in terms of the coefficients `(A, B, C)` that `rxso3_Ws` uses
+there (regimes 1 and 3: they depend on `σ` only): rotation block `(1+δ)φ` with `|δ| ≤ θ⁴/50`, log-scale exact, and — PROVIDED
+`|A| ≤ |C|` and `|B| ≤ |C|` — translation block within `θ⁵‖τ‖/17` of `τ` (`‖τ'−τ‖² ≤ θ¹⁰‖τ‖²/300`). The coefficient hypotheses
+hold in both regimes (`sim3_log_exp_small_unit`: A = 1/2, B = 1/6, C = 1; `ws3_A_le_C`, `ws3_B_le_C` for `|σ| > eps`), which gives the
+unconditional `sim3_log_exp_small`. -/
+theorem sim3_log_exp_small_of_coef (eps : ℝ) (x : sim3 ℝ) (h0 : 0 ≤ eps) (he : eps ≤ 1 / 2) (h : ¬ eps < x.phi.norm)
+    (hA : |(rxso3WsCoef eps x.phi.norm x.sigma).1| ≤ |(rxso3WsCoef eps x.phi.norm x.sigma).2.2|)
+    (hB : |(rxso3WsCoef eps x.phi.norm x.sigma).2.1| ≤ |(rxso3WsCoef eps x.phi.norm x.sigma).2.2|)
+    (hC : (rxso3WsCoef eps x.phi.norm x.sigma).2.2 ≠ 0) :
+    ∃ δ : ℝ, (sim3LogExp eps x).phi = x.phi.smul (1 + δ) ∧ |δ| ≤ x.phi.normSq ^ 2 / 50 ∧ (sim3LogExp eps x).sigma = x.sigma ∧
+      ((sim3LogExp eps x).tau.sub x.tau).normSq ≤ x.phi.normSq ^ 5 / 300 * x.tau.normSq := by
+  obtain ⟨δ, hφ, hd1, hd0⟩ := so3_log_exp_small_signed eps x.phi h0 (by linarith) h
+  have hθ0 := Vec3.norm_nonneg x.phi
+  have hθ : x.phi.norm ≤ eps := not_lt.mp h
+  have hn0 : 0 ≤ x.phi.normSq := Vec3.normSq_nonneg x.phi
+  have hn14 : x.phi.normSq ≤ 1 / 4 := by rw [← Vec3.norm_sq]; nlinarith
+  have hc0 : 0 ≤ 1 + δ := by nlinarith
+  have hθ' : ¬ eps < (x.phi.smul (1 + δ)).norm := by
+    rw [Vec3.norm_smul, abs_of_nonneg hc0]; nlinarith
+  refine ⟨δ, hφ, by rw [abs_le]; constructor <;> linarith, (show Real.log (Real.exp x.sigma) = x.sigma from Real.log_exp _), ?_⟩
+  -- the translation block
+  have htau : (sim3LogExp eps x).tau =
+      (rxso3Ws eps ⟨so3LogExp eps x.phi, Real.log (Real.exp x.sigma)⟩).inv.mulVec ((rxso3Ws eps ⟨x.phi, x.sigma⟩).mulVec x.tau) := rfl
+  rw [htau, Real.log_exp, hφ]
+  have hdet : (rxso3Ws eps ⟨x.phi.smul (1 + δ), x.sigma⟩).det ≠ 0 :=
+    rxso3Ws_det_ne_zero eps _ h0 (by
+      show (x.phi.smul (1 + δ)).norm < 2 * Real.pi
+      have := not_lt.mp hθ'
+      linarith [Real.pi_gt_three])
+  have hW : rxso3Ws eps ⟨x.phi, x.sigma⟩ = polyK (rxso3WsCoef eps x.phi.norm x.sigma).2.2 (rxso3WsCoef eps x.phi.norm x.sigma).1
+      (rxso3WsCoef eps x.phi.norm x.sigma).2.1 x.phi := rfl
+  have hW' : rxso3Ws eps ⟨x.phi.smul (1 + δ), x.sigma⟩ = polyK (rxso3WsCoef eps x.phi.norm x.sigma).2.2
+      ((rxso3WsCoef eps x.phi.norm x.sigma).1 * (1 - -δ))
+      ((rxso3WsCoef eps x.phi.norm x.sigma).2.1 * ((1 - -δ) * (1 - -δ))) x.phi := by
+    rw [rxso3Ws_eq]
+    simp only []
+    rw [rxso3WsCoef_small_indep eps (x.phi.smul (1 + δ)).norm x.phi.norm x.sigma hθ' h, polyK_smul_arg]
+    congr 1 <;> ring
+  have hy := Mat3.mulVec_inv_mulVec _ hdet ((rxso3Ws eps ⟨x.phi, x.sigma⟩).mulVec x.tau)
+  rw [hW'] at hy ⊢
+  rw [hW] at hy ⊢
+  exact ws_pert_bound _ _ _ (-δ) x.phi x.tau _ hC hA hB hn14 (by linarith) (by linarith) hy
+
+/-- unconditional for (numerically) unit scale, `|σ| ≤ eps` (regime 1 of `rxso3_Ws`: A = 1/2, B = 1/6, C = 1) -/
+theorem sim3_log_exp_small_unit (eps : ℝ) (x : sim3 ℝ) (h0 : 0 ≤ eps) (he : eps ≤ 1 / 2) (h : ¬ eps < x.phi.norm)
+    (hs : ¬ eps < |x.sigma|) :
+    ∃ δ : ℝ, (sim3LogExp eps x).phi = x.phi.smul (1 + δ) ∧ |δ| ≤ x.phi.normSq ^ 2 / 50 ∧ (sim3LogExp eps x).sigma = x.sigma ∧
+      ((sim3LogExp eps x).tau.sub x.tau).normSq ≤ x.phi.normSq ^ 5 / 300 * x.tau.normSq := by
+  apply sim3_log_exp_small_of_coef eps x h0 he h <;> rw [rxso3WsCoef_r1 eps _ _ hs h] <;> norm_num
+
+
+/-- `Log (Exp ξ)` on sim3 for EVERY rotation by at most `eps ≤ 1/2` and EVERY log-scale `σ` (regimes 1 and 3 of `rxso3_Ws`): rotation block
+`(1+δ)φ` with `|δ| ≤ θ⁴/50`, log-scale recovered exactly, translation block within `θ⁵‖τ‖/17` of `τ` (`‖τ'−τ‖² ≤ θ¹⁰‖τ‖²/300`) — the
+clause "Log(Exp x) = x, angles dense near 0" for Sim3, translation included. -/
+theorem sim3_log_exp_small (eps : ℝ) (x : sim3 ℝ) (h0 : 0 ≤ eps) (he : eps ≤ 1 / 2) (h : ¬ eps < x.phi.norm) :
+    ∃ δ : ℝ, (sim3LogExp eps x).phi = x.phi.smul (1 + δ) ∧ |δ| ≤ x.phi.normSq ^ 2 / 50 ∧ (sim3LogExp eps x).sigma = x.sigma ∧
+      ((sim3LogExp eps x).tau.sub x.tau).normSq ≤ x.phi.normSq ^ 5 / 300 * x.tau.normSq := by
+  by_cases hs : eps < |x.sigma|
+  · obtain ⟨hA, hC⟩ := ws3_A_le_C eps x.phi.norm x.sigma h0 hs h
+    exact sim3_log_exp_small_of_coef eps x h0 he h hA (ws3_B_le_C eps x.phi.norm x.sigma h0 hs h) hC
+  · exact sim3_log_exp_small_unit eps x h0 he h hs
+
 /-- pure translations / identity of SE3 (`v = 0`, either sign of `w`): `Log (X⁻¹) = −Log X = (−t, 0)` exactly -/
 theorem SE3_log_inv_pure_translation (eps : ℝ) (X : SE3 ℝ) (hq : X.q.normSq = 1) (h0 : 0 ≤ eps) (hv : X.q.vec.norm = 0) :
     SE3LogInv eps X = se3.neg (SE3Log eps X) := by
@@ -1659,6 +1721,20 @@ example : ∃ δ : ℝ, (se3LogExp (1 / 1000) ⟨⟨1, 2, 3⟩, ⟨1 / 2000, 0, 
       ≤ (⟨1 / 2000, 0, 0⟩ : Vec3 ℝ).normSq ^ 4 / 700 * (⟨1, 2, 3⟩ : Vec3 ℝ).normSq :=
   se3_log_exp_small (1 / 1000) ⟨⟨1, 2, 3⟩, ⟨1 / 2000, 0, 0⟩⟩ (by norm_num) (by norm_num)
     (by show ¬ (1 / 1000 : ℝ) < (⟨1 / 2000, 0, 0⟩ : Vec3 ℝ).norm; rw [Vec3.norm_axis _ (by norm_num)]; norm_num)
+
+example : ∃ δ : ℝ, (sim3LogExp (1 / 1000) (⟨⟨1, 2, 3⟩, ⟨1 / 2000, 0, 0⟩, -3⟩ : sim3 ℝ)).phi = (⟨1 / 2000, 0, 0⟩ : Vec3 ℝ).smul (1 + δ) ∧
+    |δ| ≤ (⟨1 / 2000, 0, 0⟩ : Vec3 ℝ).normSq ^ 2 / 50 ∧ (sim3LogExp (1 / 1000) (⟨⟨1, 2, 3⟩, ⟨1 / 2000, 0, 0⟩, -3⟩ : sim3 ℝ)).sigma = (-3 : ℝ) ∧
+    ((sim3LogExp (1 / 1000) (⟨⟨1, 2, 3⟩, ⟨1 / 2000, 0, 0⟩, -3⟩ : sim3 ℝ)).tau.sub ⟨1, 2, 3⟩).normSq
+      ≤ (⟨1 / 2000, 0, 0⟩ : Vec3 ℝ).normSq ^ 5 / 300 * (⟨1, 2, 3⟩ : Vec3 ℝ).normSq :=
+  sim3_log_exp_small (1 / 1000) (⟨⟨1, 2, 3⟩, ⟨1 / 2000, 0, 0⟩, -3⟩ : sim3 ℝ) (by norm_num) (by norm_num)
+    (by show ¬ (1 / 1000 : ℝ) < (⟨1 / 2000, 0, 0⟩ : Vec3 ℝ).norm; rw [Vec3.norm_axis _ (by norm_num)]; norm_num)
+example : ∃ δ : ℝ, (sim3LogExp (1 / 1000) (⟨⟨1, 2, 3⟩, ⟨1 / 2000, 0, 0⟩, 0⟩ : sim3 ℝ)).phi = (⟨1 / 2000, 0, 0⟩ : Vec3 ℝ).smul (1 + δ) ∧
+    |δ| ≤ (⟨1 / 2000, 0, 0⟩ : Vec3 ℝ).normSq ^ 2 / 50 ∧ (sim3LogExp (1 / 1000) (⟨⟨1, 2, 3⟩, ⟨1 / 2000, 0, 0⟩, 0⟩ : sim3 ℝ)).sigma = (0 : ℝ) ∧
+    ((sim3LogExp (1 / 1000) (⟨⟨1, 2, 3⟩, ⟨1 / 2000, 0, 0⟩, 0⟩ : sim3 ℝ)).tau.sub ⟨1, 2, 3⟩).normSq
+      ≤ (⟨1 / 2000, 0, 0⟩ : Vec3 ℝ).normSq ^ 5 / 300 * (⟨1, 2, 3⟩ : Vec3 ℝ).normSq :=
+  sim3_log_exp_small_unit (1 / 1000) (⟨⟨1, 2, 3⟩, ⟨1 / 2000, 0, 0⟩, 0⟩ : sim3 ℝ) (by norm_num) (by norm_num)
+    (by show ¬ (1 / 1000 : ℝ) < (⟨1 / 2000, 0, 0⟩ : Vec3 ℝ).norm; rw [Vec3.norm_axis _ (by norm_num)]; norm_num)
+    (by show ¬ (1 / 1000 : ℝ) < |(0 : ℝ)|; rw [abs_zero]; norm_num)
 
 end NonVacuity
 
